@@ -397,6 +397,66 @@ def gen_S(rng):
     return ','.join(hx(t) for t in texts) if texts else '-'
 
 
+B_LITS = [b'Data', b'Add', b'Replace', b'Item', b'x', b'SyncBody']
+
+
+def gen_B(rng, info):
+    """Event sequence for the tree-building call-backs.  The letter of a characters event (C plain / V inside a
+    CDATA section) is what wbxml_tree_node_get_syncml_data_type() will decide on the un-failed run: <Data> whose
+    grandparent is <Add>/<Replace> is a vObject.  `current` is tracked here as the call-backs move it."""
+    evs, stack, root, err = [], [], False, False       # stack of (kind, name): the open path, innermost last
+    for _ in range(rng.choice([1, 2, 3, 5, 8, 12, 16])):
+        c = rng.random()
+        if c < 0.42:
+            if rng.random() < 0.55:
+                nm = rng.choice(B_LITS)
+                spec = 'L' + hx(nm)
+            else:
+                nm = None
+                spec = 'T%d' % rng.choice(info['tags'])
+            attrs = []
+            for _ in range(rng.choice([0, 0, 0, 1, 2, 3])):
+                an = ('T%d' % rng.choice(info['attrs'])[0]) if rng.random() < 0.6 else 'L' + hx(rng.choice([b'id', b'a', b'class']))
+                av = 'N' if rng.random() < 0.15 else hx(bytes(rng.choice(b'abc 12') for _ in range(rng.choice([0, 1, 3, 9, 40]))))
+                attrs.append(an + '=' + av)
+            evs.append('S' + spec + ('/' + ';'.join(attrs) if attrs else ''))
+            if not err:
+                if stack and stack[-1][0] == 'C':
+                    stack.pop()
+                if not stack and root:
+                    err = True
+                else:
+                    root = True
+                    stack.append(('E', nm))
+        elif c < 0.66:
+            evs.append('E')
+            if not err:
+                if not stack:
+                    err = True
+                elif len(stack) > 1:
+                    if stack[-1][0] == 'C':
+                        stack.pop()
+                    stack.pop()
+        else:
+            text = bytes(rng.choice(b'ab \n<') for _ in range(rng.choice([0, 1, 2, 5, 17, 60])))
+            letter = 'C'
+            if not err:
+                i = len(stack) - 1
+                if i >= 0 and stack[i][0] == 'C':
+                    i -= 1
+                if i >= 2 and stack[i][1] == b'Data' and stack[i - 2][1] in (b'Add', b'Replace'):
+                    letter = 'V'
+                    if stack[-1][0] != 'C':
+                        stack.append(('C', None))
+                if not stack:
+                    if root:
+                        err = True
+                    root = True
+            evs.append(letter + hx(text))
+    return ','.join(evs)
+
+
+
 def gen_T(rng, info):
     """element-only tree over page-0 rows; returns (tree description, chunks the encoder must append)"""
     budget = [rng.choice([1, 2, 3, 5, 8, 12])]
@@ -449,7 +509,7 @@ def run_lines(cmd, lines, env=None, resilient=False):
     return out
 
 
-def unit_requests(rng, tier, info, driver):
+def unit_requests(rng, tier, info, driver, seed=0):
     """(programs) -> request lines for every k (and pairs) using the model's own request count."""
     nU, nP, nS, nT = (60, 50, 30, 24) if tier == 'quick' else (400, 300, 150, 100)
     bases = []
@@ -463,6 +523,11 @@ def unit_requests(rng, tier, info, driver):
     for _ in range(nT):
         tree, ch = gen_T(rng, info)
         bases.append(('T', '%d %d %d %s %s' % (rng.choice([0, 1, 1]), rng.choice([0, 1, 2, 3]), info['pubid'], tree, ch)))
+    # B (tree-building call-backs) draws from its own generator: the streams of the other verbs and of the
+    # conversion level stay what they were for a given seed
+    rb = random.Random('c16-B-%s' % seed)
+    for _ in range(40 if tier == 'quick' else 300):
+        bases.append(('B', gen_B(rb, info)))
     bases = [b for b in bases if b[1].strip()]
     zero = ['OOM %s 0 0 %s' % b for b in bases]
     resp = run_lines([driver], zero)
@@ -474,9 +539,10 @@ def unit_requests(rng, tier, info, driver):
         for k in range(1, n + 2):           # n+1: a k that is never reached
             lines.append('OOM %s %d 0 %s' % (verb, k, body))
         npairs = 6 if tier == 'quick' else 40
+        rp = rb if verb == 'B' else rng
         for _ in range(min(npairs, n * (n - 1) // 2)):
-            k1 = rng.randint(1, max(1, n - 1))
-            k2 = rng.randint(k1 + 1, n + 3)
+            k1 = rp.randint(1, max(1, n - 1))
+            k2 = rp.randint(k1 + 1, n + 3)
             lines.append('OOM %s %d %d %s' % (verb, k1, k2, body))
     return lines
 
@@ -508,6 +574,12 @@ def unit_oracle(line, resp):
             return 'OK with %d live blocks (expected the result only)' % live
     if verb == 'S' and ret != '0' and not hits:
         return 'error without a failure'
+    if verb == 'B':
+        tree = resp.rsplit('tree=', 1)[-1]
+        if ret != '0' and (live != 0 or tree != 'N'):
+            return 'tree building failed with %s but live=%d tree=%s' % (ret, live, tree[:20])
+        if ret == '0' and hits:
+            return 'tree building returned OK although an allocation failed'
     return None
 
 
@@ -667,7 +739,7 @@ def run(res, args):
         lines += [l.strip() for l in open(os.path.join(corpus_dir, 'unit_replays.txt')) if l.startswith('OOM ')]
     except OSError:
         pass
-    lines += unit_requests(rng, res.tier, info, driver)
+    lines += unit_requests(rng, res.tier, info, driver, res.seed)
     t0 = time.time()
     chunks = [lines[i::common.NCPU] for i in range(common.NCPU)]
     with ThreadPoolExecutor(common.NCPU) as ex:
@@ -804,7 +876,7 @@ def run(res, args):
                       'oom-correspondence', no_input=True)
     if failing and not res.violations:
         res.violation({'kind': 'proof', 'theorems': failing, 'explain': 'Props/C16.lean no longer checks'}, 'proof', no_input=True)
-    res.coverage['rule'] = ('unit: random op programs / attribute shapes / text lists / element trees x every k (and sampled pairs), distinct = distinct '
+    res.coverage['rule'] = ('unit: random op programs / attribute shapes / text lists / element trees / call-back event lists x every k (and sampled pairs), distinct = distinct '
                             'request lines; conversion: documents x 6 option sets x every k in 1..N (N counted on the un-failed run), distinct = (document, option set)')
     res.coverage['new_sites'] = len(res.violations)
     return res.finish('proof', checker_cmd='lake build Wbxml.Props.C16 driver_alloc && #audit Wbxml.Props.C16 (lake env lean); '
